@@ -239,12 +239,20 @@ func (s *AccumulatingGroup) Groups(sort sorting.NameSorter) []GroupKey {
 	}
 	if s.sortExpr != nil {
 		ctx := accumulatorGroupSortContext{}
-		sorting.SortBy(ret, sort, func(x GroupKey) string {
+		sortKey := func(x GroupKey) string {
 			ctx.groupKey = string(x)
 			ctx.rowLookup = func(row string) string {
 				return s.data[x][s.colIdxLookup[row]]
 			}
 			return s.sortExpr.BuildKey(&ctx)
+		}
+		// Groups with equal sort values are ordered by their group key, so the order never depends on map iteration
+		sorting.Sort(ret, func(a, b GroupKey) bool {
+			ka, kb := sortKey(a), sortKey(b)
+			if ka == kb {
+				return sort(string(a), string(b))
+			}
+			return sort(ka, kb)
 		})
 	} else {
 		sorting.SortBy(ret, sort, func(x GroupKey) string {
